@@ -76,6 +76,25 @@ def value_dependent(ck):
             runs = {("dfs" if dfs else "ffs"): vd_observe(built[dfs][0], data) for dfs in (False, True)}
             records.append({"id": "vd%d" % n, "ffs": runs["ffs"], "dfs": runs["dfs"], "kind": kind, "tag": tag, "opt": opt or "default", "input": repr(data),
                             "src": built[True][2]})
+    # fixed witnesses of two recorded findings: one field given under two of its names where only one value is taken as input;
+    # a function with **kwargs given a parameter by position and again by name
+    def two(src, datas, tag, kind="class"):
+        nonlocal n
+        built = {}
+        for dfs in (False, True):
+            ns = {}
+            exec("import utype\nfrom typing import Optional\nfrom utype import Schema, Field, Options, Param\n" + src.replace("DFS", str(dfs)), ns)
+            built[dfs] = ns["call"]
+        for data in datas:
+            n += 1
+            runs = {("dfs" if dfs else "ffs"): vd_observe(built[dfs], data) for dfs in (False, True)}
+            records.append({"id": "vd%d" % n, "ffs": runs["ffs"], "dfs": runs["dfs"], "kind": kind, "tag": tag, "opt": "default", "input": repr(data), "src": src, "witness": tag})
+    two("class T(Schema):\n    __options__ = Options(data_first_search=DFS)\n    a: Optional[int] = Field(alias_from=['a2'], default=7, no_input=lambda v: v is None)\n"
+        "def call(d):\n    t = T(**d)\n    return dict(t), {'a': getattr(t, 'a', '<unprovided>')}\n",
+        [{"a": None, "a2": 3}, {"a2": None, "a": 3}, {"a": 3, "a2": 3}, {"a": None, "a2": None}], "two-names-one-not-taken")
+    two("@utype.parse(options=Options(data_first_search=DFS))\ndef T(x: int, y: int = 0, **kw):\n    return {'x': x, 'y': y, 'kw': len(kw)}\n"
+        "def call(d):\n    r = T(1, **d)\n    return r, r\n",
+        [{"x": 2}, {"y": 2}, {"z": 2}], "positional-and-keyword-for-one-parameter", kind="func")
     res = tlc.judge("Trace_Strategy", "Trace_Strategy.cfg", [{k: r[k] for k in ("id", "ffs", "dfs")} for r in records], workers=8)
     if res.distinct != len(records):
         raise MachineryError("trace acceptance (value-dependent declarations): TLC visited %d states, expected %d" % (res.distinct, len(records)))
@@ -88,6 +107,9 @@ def value_dependent(ck):
         ck.keys.add("VD|%s|%s|%s|%s" % (r["kind"], r["tag"], r["opt"], r["ffs"]["ok"]))
     for t in res.tagged("VIOL"):
         r = byid[t[1]]
+        if r.get("witness"):
+            ck.violation("C06|strategies-differ|%s" % r["witness"], t[2], dict(r, vd=True))
+            continue
         ck.violation("C06|%s|value-dependent|%s|%s|%s" % (t[2], r["kind"], r["tag"], r["opt"]), t[2], dict(r, vd=True))
 
 
@@ -119,6 +141,18 @@ def replay(path):
     rec = d["record"]
     if not rec.get("vd"):
         return replay_c05(path)
+    if rec.get("witness"):
+        data = eval(rec["input"])
+        runs = {}
+        for dfs in (False, True):
+            ns = {}
+            exec("import utype\nfrom typing import Optional\nfrom utype import Schema, Field, Options, Param\n" + rec["src"].replace("DFS", str(dfs)), ns)
+            runs["dfs" if dfs else "ffs"] = vd_observe(ns["call"], data)
+        print(rec["src"]); print("input:", data); print("field-first:", runs["ffs"]); print("data-first: ", runs["dfs"])
+        r = tlc.judge("Trace_Strategy", "Trace_Strategy.cfg", [{"id": "replay", "ffs": runs["ffs"], "dfs": runs["dfs"]}], workers=1)
+        v = r.tagged("VIOL")
+        print("VIOLATION property=C06 replay=%s" % path if v else "replay: property holds now")
+        return 1 if v else 0
     fa = dict(VD_FIELDS)[rec["tag"]]
     opt = "" if rec["opt"] == "default" else rec["opt"]
     data = eval(rec["input"])
